@@ -25,6 +25,8 @@ impl<V> SMap<V> {
     #[verifier::external_body]
     pub fn new() -> (r: Self) ensures r.wf(), r.keys() == Seq::<Seq<char>>::empty(), r.map() == Map::<Seq<char>, V>::empty() { unimplemented!() }
     #[verifier::external_body]
+    pub fn with_capacity(n: usize) -> (r: Self) ensures r.wf(), r.keys() == Seq::<Seq<char>>::empty(), r.map() == Map::<Seq<char>, V>::empty() { unimplemented!() }
+    #[verifier::external_body]
     pub fn len(&self) -> (r: usize) requires self.wf() ensures r == self.keys().len() { unimplemented!() }
     #[verifier::external_body]
     pub fn is_empty(&self) -> (r: bool) requires self.wf() ensures r == (self.keys().len() == 0) { unimplemented!() }
@@ -47,6 +49,10 @@ impl<V> SMap<V> {
     pub fn get_index(&self, i: usize) -> (r: Option<(&String, &V)>) requires self.wf()
         ensures i < self.keys().len() ==> (r matches Some(kv) && kv.0@ == self.keys()[i as int] && *kv.1 == self.map()[self.keys()[i as int]]),
             i >= self.keys().len() ==> r is None { unimplemented!() }
+    // R13m: by-value copy of the value at a position (`for v in m.values_mut()` becomes value_at / body / set_index)
+    #[verifier::external_body]
+    pub fn value_at(&self, i: usize) -> (r: V) requires self.wf(), i < self.keys().len()
+        ensures r == self.map()[self.keys()[i as int]] { unimplemented!() }
     // R13: positional update used by `for (_, v) in m.iter_mut()`
     #[verifier::external_body]
     pub fn set_index(&mut self, i: usize, v: V) requires old(self).wf(), i < old(self).keys().len()
